@@ -836,8 +836,30 @@ pub fn load_static_config(server: &mut Server, mut client: OptionalClient, path:
     let config = match path {
         Some(path) if !path.is_empty() => {
             info!("loading static configuration at path {}", path);
-            new_config = Config::load_from_path(path)
-                .unwrap_or_else(|_| panic!("cannot load configuration from '{path}'"));
+            new_config = match Config::load_from_path(path) {
+                Ok(config) => config,
+                Err(config_err) => {
+                    // an operator's typo must not take the main process down
+                    if let Some(client_ref) = client.as_deref() {
+                        let (verb, counter) = audit_verb!("configuration_reloaded");
+                        audit_emit_inline(
+                            server,
+                            client_ref,
+                            EventKind::ConfigurationReloaded,
+                            verb,
+                            counter,
+                            format!("config:{path}"),
+                            AuditResult::Err,
+                            AuditExtras::default(),
+                        );
+                    }
+                    client.finish_failure(format!(
+                        "cannot load configuration from '{path}': {config_err}"
+                    ));
+                    server.cancel_task(task_id);
+                    return;
+                }
+            };
             &new_config
         }
         _ => {
